@@ -19,7 +19,8 @@ from ..core import pool_map
 MODULE = "ia/IaSolver.tla"
 DEVS = ["PSetterKeepsDerived", "SetPrecodersKeepsFullW", "InvalidPCommitted", "SetFiltersKeepsFullW"]
 ALGS = ["ClosedForm", "AltMin", "MinLeakage", "MaxSINR", "MMSE"]
-ACTS = {"Solve", "RandomizeF", "SetPrecoders", "SetFilters", "SetP", "SetPInvalid", "RejectedCall", "NewChannel", "ReadFullF", "ReadWconv", "ReadFullWH", "ReadFullW"}
+ACTS = {"Solve", "RandomizeF", "SetPrecoders", "SetFilters", "SetP", "SetPInvalid", "RejectedCall", "NewChannel", "ReadFullF", "ReadWconv", "ReadFullWH", "ReadFullW",
+        "IterStep", "Clear"}
 TOL = 1e-7
 
 
@@ -130,7 +131,9 @@ class Driver:
             newp = self.pkind if pk == "keep" else pk
             kw = {}
             if pk != "keep":
-                kw["P"] = P_array(pk, K) if pk != "default" else np.ones(K)
+                # the power as the K-vector, as a list, or (scalar kind) as one number
+                pv = P_array(pk, K)
+                kw["P"] = float(pv[0]) if pk == "scalar" else (list(pv) if self.rs.rand() < 0.5 else pv)
             Fa = np.empty(K, dtype=object)
             for k in range(K):
                 Fa[k] = F[k]
@@ -142,7 +145,10 @@ class Driver:
             else:
                 pa = P_array(newp, K)
                 full = [F[k] * np.sqrt(pa[k]) for k in range(K)]
-                s.set_precoders(full_F=full, **kw)
+                if how == "both":
+                    s.set_precoders(F=arg, full_F=full, **kw)
+                else:
+                    s.set_precoders(full_F=full, **kw)
             self.pkind = newp
             self.F = F
             self.fullF = None
@@ -172,6 +178,12 @@ class Driver:
             try:
                 if a[0] == "precodersNone":
                     s.set_precoders()
+                elif a[0] == "precodersBadP":
+                    try:
+                        s.set_precoders(F=[unit(self.rs, self.N, 1) for _ in range(K)], P=[1.0, -2.0, 0.5, 1.0][:K])
+                    except ValueError:
+                        return None
+                    return ("error", "set_precoders accepted a power vector with a negative entry")
                 elif a[0] == "filtersBoth":
                     s.set_receive_filters(W_H=w, W=[x.conj().T for x in w])
                 else:
@@ -179,6 +191,27 @@ class Driver:
             except RuntimeError:
                 return None
             return ("error", f"rejected call {a[0]} was accepted")
+        if op == "Clear":
+            s.clear()
+            self.F = self.WH = self.fullF = None
+            self.pkind = "default"
+            return None
+        if op == "IterStep":
+            p = P_of(self.pkind, K)
+            c0 = float(np.real(s.get_cost()))
+            modes = (s.initialize_with, s.max_iterations, getattr(s, "relative_factor", None))
+            s.initialize_with, s.max_iterations = "fix", 1
+            try:
+                s.solve(self.Ns) if p is None else s.solve(self.Ns, p)
+            finally:
+                s.initialize_with, s.max_iterations = modes[0], modes[1]
+            c1 = float(np.real(s.get_cost()))
+            self.F = [np.array(x) for x in s.F]
+            self.WH = [np.array(x) for x in s.W_H]
+            self.fullF = None
+            if c1 > c0 + 1e-9 * max(1.0, c0) * max(1.0, self.scale ** 2):
+                return ("error", f"one more iteration raised the total leaked interference power from {c0:.8e} to {c1:.8e}")
+            return None
         if op == "NewChannel":
             self.ch.randomize(self.N, self.N, K)
             if self.scale != 1.0:
@@ -287,6 +320,17 @@ def check_state(drv, e, probe):
                     leak = np.linalg.norm(np.asarray(s.W_H[k]).dot(drv.ch.get_Hkl(k, l)).dot(s.F[l])) / drv.scale
                     if leak > 1e-7:
                         bad.append(f"closed-form solution leaks {leak:.2e} from user {l} into user {k}")
+    if "NothingReported" in req:
+        # after clear(): unit power, and no precoder / filter / derived quantity left over from the forgotten solution
+        if not np.allclose(np.asarray(s.P, dtype=float) * np.ones(K), np.ones(K)):
+            bad.append(f"after clear() P is {s.P}")
+        for name in ("F", "full_F", "W", "W_H", "full_W_H", "full_W"):
+            try:
+                v = getattr(s, name)
+            except Exception:          # a getter may refuse without a solution
+                continue
+            if v is not None:
+                bad.append(f"after clear() {name} still reports a value")
     if "SolvedShapes" in req:
         if list(np.asarray(s.Ns)) != [drv.Ns] * K:
             bad.append(f"Ns after solve({drv.Ns}) is {s.Ns}")
@@ -503,8 +547,10 @@ def leak_multi_case(job):
 
 
 def greedy_case(job):
-    """the greedy stream-reduction wrapper leaves the wrapped solver with a valid solution for the power it was given"""
-    alg, seed = job
+    """the stream-selection wrappers (greedy reduction, brute force over all stream combinations) leave the wrapped
+    solver with a valid solution for the power they were given"""
+    alg, seed = job[:2]
+    wrapper = job[2] if len(job) > 2 else "greedy"
     np.random.seed(seed % (2 ** 31))          # random initialisations draw from numpy's global generator
     from pyphysim.channels.multiuser import MultiUserChannelMatrix
     from pyphysim.ia.algorithms import GreedStreamIASolver
@@ -515,17 +561,22 @@ def greedy_case(job):
     ch.noise_var = 1e-3 if seed % 2 else 0.1
     s = solver_class(alg)(ch)
     seed_solver(s, seed)
-    s.max_iterations = 40
+    s.max_iterations = 40 if wrapper == "greedy" else 10
     if seed % 3 == 0:
         s.initialize_with = "closed_form"
     powers = np.array([1.2, 1.5, 0.9]) if seed % 2 else 1.7
-    g = GreedStreamIASolver(s)
+    if wrapper == "greedy":
+        g = GreedStreamIASolver(s)
+    else:
+        from pyphysim.ia.algorithms import BruteForceStreamIASolver
+        g = BruteForceStreamIASolver(s)
+    name = "GreedStream" if wrapper == "greedy" else "BruteForceStream"
     try:
         g.solve(2, powers)
     except Exception as ex:
-        return f"GreedStream({alg}).solve(2, {powers}) raised {type(ex).__name__}: {ex}"
+        return f"{name}({alg}).solve(2, {powers}) raised {type(ex).__name__}: {ex}"
     bad = solution_defects(s, ch, alg, K, [N] * K, [N] * K, np.ones(K) * powers)
-    return (f"GreedStream({alg}) P={powers} seed={seed} (final Ns {list(s.Ns)}): " + "; ".join(bad)) if bad else None
+    return (f"{name}({alg}) P={powers} seed={seed} (final Ns {list(s.Ns)}): " + "; ".join(bad)) if bad else None
 
 
 def explore(ctx, alg, r, mode):
@@ -580,7 +631,7 @@ def run(ctx):
             m.update(cover=False, walks=220, walk_len=10)
         explore(ctx, alg, r, m)
     ctx.require_actions(["Solve", "RandomizeF", "SetPrecoders", "SetFilters", "SetP", "SetPInvalid", "RejectedCall", "NewChannel",
-                         "ReadFullF", "ReadWconv", "ReadFullWH", "ReadFullW"])
+                         "ReadFullF", "ReadWconv", "ReadFullWH", "ReadFullW", "IterStep", "Clear"])
     ctx.exhaustive = True
     # (rel) leakage never increases, feasible (K=3) and infeasible (K=4) configurations
     n = 40 if thorough else 6
@@ -615,7 +666,8 @@ def rel_cases(ctx):
         ctx.ok(("leakmulti", job[0], job[1], str(job[2]), job[3]))
         if d:
             ctx.violation(d, {"kind": "leakmulti", "job": list(job), "costs": costs})
-    jobs = [(alg, ctx.seed * 19 + i) for alg in ("AltMin", "MinLeakage", "MaxSINR", "MMSE") for i in range(12 if thorough else 6)]
+    jobs = [(alg, ctx.seed * 19 + i, "greedy") for alg in ("AltMin", "MinLeakage", "MaxSINR", "MMSE") for i in range(12 if thorough else 6)]
+    jobs += [(alg, ctx.seed * 23 + i, "brute") for alg in ("AltMin", "MinLeakage", "MaxSINR", "MMSE") for i in range(6 if thorough else 2)]
     for job, d in zip(jobs, pool_map(greedy_case, jobs)):
         ctx.ok(("greedy",) + job)
         if d:
